@@ -10,6 +10,11 @@ import (
 	"fmt"
 	"math/rand"
 	"os"
+	"strconv"
+	"strings"
+
+	jdoc "github.com/jsightapi/jsight-schema-go-library/formats/json"
+	"github.com/jsightapi/jsight-schema-go-library/notations/jschema"
 )
 
 type semGen struct {
@@ -299,6 +304,23 @@ func init() {
 				calls++
 				w.Write(map[string]interface{}{"op": "validate", "schema": root, "env": env, "opt": opt, "doc": doc, "ok": got.OK,
 					"code": got.Code, "kind": got.Kind, "text": renderSchema(root).Text, "doctext": doc.JSON()})
+			}
+		}
+		if !*rich {
+			// the unit of minLength / maxLength on strings outside ASCII (bytes or code points: the statement does not say, but it is ONE unit):
+			// for every probe string the schemas {minLength: k, maxLength: k}, k = 0..9, accept it for exactly one k, its length
+			for _, probe := range []string{"\u00e9\u00e9", "\u043f", "a\u20ac", "\U0001F600", "a\u00e9", "\u00e9", "ab\u00e9\u00e9c", "\u20ac\u20ac\u20ac"} {
+				oks := []bool{}
+				for k := 0; k <= 9; k++ {
+					sch := jschema.New("s", fmt.Sprintf("%q // {minLength: %d, maxLength: %d}", strings.Repeat("a", k), k, k))
+					oks = append(oks, guard(func() error { return sch.Validate(jdoc.New("d", strconv.Quote(probe))) }).OK)
+				}
+				cp := []int{}
+				for _, r := range probe {
+					cp = append(cp, int(r))
+				}
+				w.Write(map[string]interface{}{"op": "lenunit", "c": cp, "oks": oks, "text": "{minLength: k, maxLength: k}", "doctext": strconv.Quote(probe)})
+				calls++
 			}
 		}
 		fmt.Fprintf(os.Stderr, "@@SUMMARY {\"schemas\": %d, \"calls\": %d, \"schemas_rejected_by_check\": %d}\n", schemas, calls, rejectedSchemas)
